@@ -299,6 +299,8 @@ def apply_op(d, root, cls, op, arg, rng):
             nd.mark = rng.randrange(1000)
             return "node.mark"
         if op == "Encode":
+            if any(x.taxon is None for x in nodes if not x._child_nodes):
+                return None         # documented precondition of the encoding: every leaf carries a taxon
             if t.bipartition_encoding is None or arg % 2 == 0:
                 t.encode_bipartitions()
                 if arg % 3:
